@@ -257,6 +257,12 @@ func nearBoundary(d *session.Data, now time.Time, margin time.Duration) bool {
 
 func (h *histRun) tick(d time.Duration) {
 	p := h.readState()
+	// now and then the store's clock trails by some seconds (its TTL is also armed a little after the metadata was stamped): a session can then be
+	// past its end / timeout while its entry is still readable - the handlers must judge by the metadata, not by the entry's presence
+	if h.c.rng.chance(1, 4) && d > 45*time.Second && h.s.lag < 3*time.Minute {
+		h.s.lagNext = 40 * time.Second
+		h.c.count("op:tick-with-store-lag")
+	}
 	h.s.shift(p.ticket, d)
 	h.b.vnow = time.Now // cookies of the session have no Max-Age; the jar clock is not needed here
 }
@@ -563,7 +569,7 @@ func (h *histRun) opSession(op string) {
 		"idtok", hc.idTok, "autologin", hc.autoLogin,
 		"op", op, "now", now, "ck", pre.ck, "plan", plan, "secs", expiresIn,
 		"newat", hx(fmt.Sprintf("at%d", h.genNext(pre))), "newrt", hx(fmt.Sprintf("rt%d", h.genNext(pre))),
-		"ignored", ignored, "nav", nav, "cauth", clientAuth != "", "cid", clientID != "", "hop", hop, "sidmatch", sidMatch}
+		"lag", int64(h.s.lag), "ignored", ignored, "nav", nav, "cauth", clientAuth != "", "cid", clientID != "", "hop", hop, "sidmatch", sidMatch}
 	kv = append(kv, h.stFields("", pre)...)
 	kv = append(kv, "status", resp.Status, "fwd", len(ups) > 0, "upauth", upAuth, "nauth", nAuthVals, "upid", upID, "contacted", contacted, "granted", granted,
 		"hasbody", hasBody, "bactive", body.Session.Active, "bnext", body.Tokens.NextAuto, "bcooldown", body.Tokens.Cooldown, "cleared", sessCleared, "leak", hx(leak),
